@@ -234,7 +234,7 @@ def run_one_case(binary, lines, tag):
     path = os.path.join(build.BUILD, 'one_%s_%d.cases' % (tag, os.getpid()))
     gen.write_cases(path, [lines])
     try:
-        tcs = corr.parse_transcript(corr.run_harness(binary, path, timeout=120, case_ms=2000))
+        tcs = corr.parse_transcript(corr.run_harness(binary, path, timeout=300, case_ms=6000))
     except Exception:
         return None
     finally:
@@ -595,13 +595,13 @@ def hll_accuracy_stage(prop, tier, seed, bins, tag):
     t0 = time.time()
     import math
     rng = random.Random(seed)
-    seeds = 60
     cases, index = [], {}
-    for b in (4, 6, 8, 10, 12, 14):
+    for b in (4, 5, 6, 7, 8, 10, 12, 14):
         m = 1 << b
+        seeds = 4000 if b <= 7 else (1000 if b <= 8 else (200 if b <= 12 else 60))
         for mult in (0.1, 0.4, 1.0, 3.0, 6.0, 20.0, 50.0):
             n = max(1, int(m * mult))
-            if n * seeds > 6_000_000:
+            if n * seeds > 16_000_000:
                 continue
             for r in range(seeds):
                 cid = 'a%d_%d_%d' % (b, n, r)
@@ -630,7 +630,7 @@ def hll_accuracy_stage(prop, tier, seed, bins, tag):
         tail = sum(1 for e in errs if abs(e) > 3 * re_) / len(errs)
         bump = 0.5 <= mult <= 2.0
         lim_rms = (3.0 if bump else 1.6) * re_ + 2.0 / n
-        if rms > lim_rms or abs(mean) > 0.7 * re_ + 2.0 / n or tail > 0.15:
+        if rms > lim_rms or abs(mean) > (0.25 if bump else 0.12) * re_ + 4 * rms / math.sqrt(len(errs)) + 2.0 / n or tail > 0.15:
             sg.failures.append(('C03', 'b=%d n=%d over %d seeds: rms=%.4f mean=%.4f tail(3x)=%.2f, relative_error()=%.4f' % (b, n, len(errs), rms, mean, tail, re_),
                                 gen.case('acc_b%d_n%d' % (b, n), 'hll', {'hasher': 'sip'}, ['new 0 %d' % b, 'fill 0 %d <seed>' % n, 'count 0'])))
     sg.wall = time.time() - t0
